@@ -24,7 +24,7 @@ theorem mapM_except_isOk {β γ ε} (f : β → Except ε γ) : ∀ (l : List β
 /-- `NewPartitionRing` never fails with `ErrInconsistentTokensInfo`, for EVERY descriptor: the token list,
 `partitionByToken` and the partition map are built from the same descriptor. -/
 theorem buildLookups_ok (d : PDesc) : ∃ l, buildLookups d = .ok l := by
-  unfold buildLookups
+  unfold buildLookups buildLookupsIdx
   apply mapM_except_isOk
   intro t ht
   obtain ⟨p, hp, htp⟩ := (mem_ringTokens d t).mp ht
@@ -47,7 +47,7 @@ theorem buildLookups_ok (d : PDesc) : ∃ l, buildLookups d = .ok l := by
 `(token, partition)` list that `activeFor` walks. -/
 theorem buildLookups_eq (d : PDesc) (h : WFP d) :
     buildLookups d = .ok (d.tokenParts.map fun x => (x.1, x.2.id, x.2.isActive)) := by
-  unfold buildLookups PDesc.ringTokens
+  unfold buildLookups buildLookupsIdx PDesc.ringTokens
   apply mapM_except_ok
   intro x hx
   obtain ⟨t, p⟩ := x
@@ -93,7 +93,7 @@ theorem rangesForInstance_ok_on_wf (d : Desc) (hwf : C01.WFRing d) (inst : Inst)
     | nil => exact absurd hzt hne
     | cons _ _ => rfl
   refine ⟨instRangesOf (zoneFlags d inst.zone inst.id), ?_⟩
-  simp only [rangesForInstance, rangesForInstanceWith, hget, hz', hne2, zoneFlagsOf_eq d hwf.2]
+  simp only [rangesForInstance, rangesForInstanceWith, rangesForInstanceIdx, hget, hz', hne2, zoneFlagsOf_eq d hwf.2]
   simp
 
 end PfC14
